@@ -329,6 +329,10 @@ def e2e_configs(tier):
              scheduler="threads:3"),
         dict(base, H=40, W=100, chunks=(40, 100), blocksize=[(16, 32), 16], dtype="uint8", compression="none",
              min_write_sz=256, spill_sz=256, scheduler="threads:3"),
+        dict(base, H=63, W=64, axis="YXS", S=4, dtype="int16", chunks=(32, 9), blocksize=[(32, 16), 32, 16],
+             compression="none", nodata=-3),                     # uncompressed level that is exactly one tile
+        dict(base, H=40, W=33, axis="SYX", S=1, dtype="float32", chunks=(48, 1), blocksize=[(16, 32), 16], band_chunk=1),
+        dict(base, H=16, W=3, axis="YXS", S=1, dtype="float64", chunks=(16, 32), blocksize=[(32, 16), 32, 16]),
         dict(base, H=33, W=47, blocksize=[(16, 32), 16], chunks=(10, 47), transform=[3.0, 4.0, 10.0, 4.0, -3.0, 50.0]),
         dict(base, H=70, W=50, axis="SYX", S=2, chunks=(32, 32), band_chunk=2, dtype="uint8", scheduler="shuffle:11",
              stats=True),
@@ -509,16 +513,36 @@ def p_offsets(ts, stream, start):
     return True, f"{len(stream)} tiles, {pos - start} bytes"
 
 
-def p_e2e(cfg):
-    """the property's statement about the produced file, checked on the file itself"""
+class WriterTimeout(Exception):
+    pass
+
+
+def run_limited(cfg, work, seconds=90):
+    """run_writer under a wall-clock limit (a writer that never returns is a failure, not a hung check)"""
+    import signal
+
     from vlib import cogio
 
+    def on_alarm(*_):
+        raise WriterTimeout(f"save_cog_with_dask did not finish within {seconds}s")
+
+    old = signal.signal(signal.SIGALRM, on_alarm)
+    signal.alarm(seconds)
+    try:
+        return cogio.run_writer(cfg, work)
+    finally:
+        signal.alarm(0)
+        signal.signal(signal.SIGALRM, old)
+
+
+def p_e2e(cfg):
+    """the property's statement about the produced file, checked on the file itself"""
     cfg = dict(cfg)
     for k in ("chunks",):
         cfg[k] = tuple(cfg[k])
     work = tempfile.mkdtemp(prefix="verif-c05-")
     try:
-        rec = cogio.run_writer(cfg, work)
+        rec = run_limited(cfg, work)
         ok, detail, _ = check_file(cfg, rec)
         return ok, detail
     finally:
@@ -596,12 +620,13 @@ def check_file(cfg, rec):
         b, info = cogio.decode_rasterio(path)
     except Exception as e:  # pragma: no cover
         return False, f"reader failed: {type(e).__name__}: {e}", ifds
+    # tifffile squeezes singleton sample / plane axes
     if ax == "YX":
-        a3, p3 = a[np.newaxis], pix[np.newaxis]
+        a3, p3 = a.reshape(1, Hp, Wp), pix[np.newaxis]
     elif ax == "YXS":
-        a3, p3 = a.transpose(2, 0, 1), pix.transpose(2, 0, 1)
+        a3, p3 = a.reshape(Hp, Wp, S).transpose(2, 0, 1), pix.transpose(2, 0, 1)
     else:
-        a3, p3 = a, pix
+        a3, p3 = a.reshape(S, Hp, Wp), pix
     for name, arr in (("tifffile", a3), ("rasterio", b)):
         if arr.shape != (p3.shape[0], Hp, Wp) or arr.dtype != pix.dtype:
             msgs.append(f"{name}: decoded {arr.shape} {arr.dtype}, want {(p3.shape[0], Hp, Wp)} {pix.dtype}")
@@ -625,10 +650,11 @@ def check_file(cfg, rec):
     for k in range(1, n + 1):
         ok_t = cogio.decode_tifffile(path, k)
         ok_r, _ = cogio.decode_rasterio(path, k)
-        if ax == "YX":
-            ok_t = ok_t[np.newaxis]
-        elif ax == "YXS":
-            ok_t = ok_t.transpose(2, 0, 1)
+        hk, wk = ifds[k]["length"], ifds[k]["width"]
+        if ax == "YXS":
+            ok_t = ok_t.reshape(hk, wk, S).transpose(2, 0, 1)
+        else:
+            ok_t = ok_t.reshape(-1, hk, wk)
         if ok_t.shape != ok_r.shape or not np.array_equal(ok_t, ok_r, equal_nan=True):
             msgs.append(f"overview {k}: tifffile and rasterio decode differently")
     return not msgs, "; ".join(msgs[:4]) or f"{len(observed)} tiles, {len(ifds)} IFDs, {len(data)} bytes", ifds
@@ -725,7 +751,7 @@ def run(out, tier, scratch):
     for cfg in e2e_configs(tier):
         pub = {k: v for k, v in cfg.items()}
         try:
-            rec = cogio.run_writer(cfg, work)
+            rec = run_limited(cfg, work)
             ok, detail, ifds = check_file(cfg, rec)
             e2e_done.append((pub, ok, detail))
             for kind, text in e2e_model_cases(cfg, rec, ifds):
